@@ -479,3 +479,102 @@ for _s, _nm in _STEPS:
       assumes=["set-up requests succeed (no fault)"], bounds="one '%s' request with one allocation failure, then both peers disconnect; 2 peers, <= 1 element, <= 1 fetch" % _nm,
       **_scn_alloc)
 _also(["C15.alloc_failure_"], ["C06", "C07"])
+
+# ------------------------------------------------------------------------------------------------ C08 / C20 authentication, access, password change
+_scn_auth = dict(_scn, harness="harness/scn_auth.c", flags=_scn["flags"] + ["--no-bounds-check"],
+                 unwindset=dict(_scn["unwindset"], **{"verif_crypt.0": 14, "verif_write.0": 9, "maybe_crash.0": 9, "clear_password.0": 14,
+                                                      "get_groups.0": 4, "get_groups.1": 4, "is_in_groups.0": 4, "add_groups.0": 4, "fill_salt.0": 18,
+                                                      "get_salt_from_passwd.0": 6, "strcat.0": 24, "strchr.0": 24, "write_user_data.0": 6,
+                                                      "harness_crash_atomic.0": 4}),
+                 stubs=_SCN_STUBS + ["crypt: injective model crypt(pw, salt) = \"H\" ++ pw", "ftruncate/lseek/write: 8-byte file model with symbolic error / short-write outcomes and a symbolic crash point",
+                                     "cJSON_Print of the database: returns the fixed new content \"NEW\"", "cjet_get_random_bytes: fixed bytes",
+                                     "credential database installed directly (load_passwd_data's open/mmap/parse are not modelled)"])
+_AF = ["handle_authentication", "credentials_ok", "clear_password", "get_groups", "has_access", "handle_change_password", "change_password", "is_admin", "is_readonly",
+       "get_salt_from_passwd", "fill_salt", "write_user_data"]
+for _c, _nm in ((0, "right_password"), (1, "wrong_password"), (2, "unknown_user"), (3, "missing_password"), (4, "other_user")):
+    O(id="C08.auth_" + _nm, props=["C08", "C02"], entry="harness_auth_step", defines=["AUTHCASE=%d" % _c], functions=_AF,
+      symbolic="(concrete credentials per obligation; group masks and the password buffer are checked)", assumes=[],
+      bounds="database of 4 users / 2 groups; one authenticate request (%s)" % _nm, **_scn_auth)
+O(id="C08.reauth", props=["C08", "C07"], entry="harness_reauth", functions=_AF, symbolic="(concrete sequence)", assumes=[],
+  bounds="authenticate u1 (ok), u2 (bad password), u2 (ok); then disconnect", **_scn_auth)
+for _c, _nm in ((0, "member"), (1, "other_group"), (2, "unauthenticated")):
+    O(id="C08.visibility_" + _nm, props=["C08"], entry="harness_visibility", defines=["VISCASE=%d" % _c],
+      functions=_AF + ["add_fetch_to_state_and_notify", "set_or_call", "fill_access", "get_elements"],
+      symbolic="state value", assumes=["set-up requests succeed"],
+      bounds="state 's' with fetchGroups/setGroups [g1]; peer P1 is %s; fetch-all, add, set, get" % _nm, **_scn_auth)
+for _c, _nm, _rch in ((0, "unauthenticated", ["refused"]), (1, "own_account", ["changed"]), (2, "foreign_account", ["refused"]), (3, "admin", ["changed"]),
+                      (4, "readonly_account", ["refused"]), (5, "unknown_account", ["refused"])):
+    O(id="C20.passwd_" + _nm, props=["C20", "C08", "C02"], entry="harness_passwd", defines=["PWCASE=%d" % _c], reach=_rch, functions=_AF,
+      symbolic="(concrete requester/target per obligation)", assumes=["the requester's own authentication succeeds where the case needs it"],
+      bounds="database of 4 users; one passwd request (%s); file writes complete" % _nm, **_scn_auth)
+O(id="C20.crash_atomic", props=["C20"], entry="harness_crash_atomic", reach=["completed", "crashed", "failed"], functions=["write_user_data"],
+  symbolic="ftruncate failure, outcome of each of up to 3 write calls (error / short by 1..3 bytes / complete), crash point after any of the first 7 file-system calls",
+  assumes=[], bounds="old content 4 bytes, new content 3 bytes, <= 3 write calls", **_scn_auth)
+PROPERTY_NOTES["C20"] = {
+    "composition": "passwd_*: through the real dispatcher, handle_change_password and change_password, a password change is carried out iff the "
+                   "requester is authenticated and the target exists, is not read-only and is the requester's own account or the requester is "
+                   "admin; a refused change leaves database and file untouched; after an accepted change the new password authenticates and the "
+                   "old one does not (injective crypt model) and the file holds the new serialisation. crash_atomic: write_user_data under every "
+                   "ftruncate/write outcome (error, short write, complete) and every crash point between its file-system calls: a completed "
+                   "update leaves exactly the new content; the file must hold the old or the new content at the crash point.",
+    "outside": "real crypt(3) and salts; loading the file (open/mmap/parse); the serialised text (fixed 3-byte stand-in); more than 3 write calls.",
+    "level_text": _BMC,
+}
+PROPERTY_NOTES["C08"] = {
+    "composition": "fresh_peer_groups: a new peer holds no groups whatever the allocator handed out. auth_*: one authenticate request with right / wrong "
+                   "password, unknown user, missing member, another user: groups are exactly the authenticated user's groups, a failure changes "
+                   "nothing, the password buffer is zeroed on every path. reauth: groups follow the last successful authentication, nothing leaks. "
+                   "visibility_*: a state with fetchGroups/setGroups [g1] is reported to and settable by a member of g1 only (member / other group / "
+                   "unauthenticated peer), including the add that happens after the fetch. origin: loopback and local-socket origins are local.",
+    "outside": "credential files as text; more than 2 groups / 4 users (the 32-group limit: 1 << j on int is read, not driven); call groups; both transports.",
+    "level_text": _BMC,
+}
+
+# ------------------------------------------------------------------------------------------------ C13 HTTP front door
+_scn_http = dict(_scn, harness="harness/scn_http.c",
+                 units=_PROTO_UNITS + ["src/websocket_peer.c", "src/websocket.c", "src/compression.c", "src/utf8_checker.c", "src/linux/jet_endian.c", "src/base64.c", "src/http_server.c"],
+                 stubs=_SCN_STUBS + ["http_parser_execute: contract stub (reports the URL at most once, parses the whole line or stops early); http_parser_parse_url: whole string is the path",
+                                     "buffered reader of the connection: close/writev/read_until/set_error_handler record"])
+for _m, _nm, _rch in ((0, "valid_line", ["accepted"]), (1, "error_after_url", ["refused"]), (2, "error_before_url", ["refused"]), (3, "other_path", ["refused"])):
+    O(id="C13.request_line_" + _nm, props=["C13", "C07", "C05"], entry="harness_request_line", reach=_rch, defines=["PARSER_MODE=%d" % _m],
+      functions=["read_start_line", "on_url", "find_url_handler", "send_http_error_response", "get_response", "free_connection", "alloc_websocket_peer", "init_websocket_peer", "websocket_init", "init_peer", "free_websocket_peer_on_error", "websocket_close"],
+      symbolic="(parser verdict fixed per obligation: %s)" % _nm, assumes=["connection allocation and initialisation succeed"],
+      bounds="one request line; one URL handler (the websocket target)", **_scn_http)
+PROPERTY_NOTES["C13"] = {
+    "composition": "request_line_*: the real read_start_line/on_url with the real websocket peer creation behind them, for the four things the HTTP "
+                   "parser can report about a request line (valid line for the target, syntax error after the URL, syntax error before it, another "
+                   "path): a refused exchange is answered with an HTTP error status, closes the connection once and leaves no peer and no memory; "
+                   "an accepted line creates exactly one peer whose teardown is registered with the connection, and closing half-way removes it. "
+                   "read_until_step: lines are delivered exactly up to CRLF, over-long lines end the connection; fd_hygiene_http: set-up failures close the descriptor once.",
+    "outside": "http_parser.c itself (contract stub); header lines after the request line (websocket_read_header_line / upgrade callbacks).",
+    "level_text": _BMC,
+}
+
+# ------------------------------------------------------------------------------------------------ C19 permessage-deflate buffers
+_c19 = dict(harness="harness/c19_compress.c",
+            stubs=["inflate: contract stub (consumes <= avail_in, produces <= avail_out, touches only those ranges, any return code)",
+                   "memcpy/memmove: byte loops", "libc malloc/realloc/free: CBMC models (never fail here)"])
+O(id="C19.reassemble", props=["C19", "C06"], entry="harness_reassemble", reach=["second_fragment_larger_than_doubled_buffer"],
+  functions=["reassemble", "write_int_to_array", "read_int_from_array"], unwind=26,
+  unwindset={"verif_memcpy.0": 26, "write_int_to_array.0": 5}, defines=["FMAX=24"],
+  symbolic="lengths of two fragments (1..24 bytes each), fragment bytes", assumes=["allocations succeed"], bounds="two fragments of <= 24 bytes", **_c19)
+O(id="C19.inflate_buffers", props=["C19", "C06"], entry="harness_decompress", reach=["decompressed"], unwind=8,
+  functions=["private_decompress"], unwindset={"verif_memcpy.0": 8, "private_decompress.0": 5},
+  symbolic="message length 0..6, every amount inflate consumes/produces and every return code, context-takeover flag",
+  assumes=["allocations succeed", "inflate makes progress at the latest on its 3rd call (bounds the doubling loop)"], bounds="message <= 6 bytes, <= 4 inflate calls", **_c19)
+PROPERTY_NOTES["C19"] = {
+    "composition": "reassemble: two fragments of arbitrary lengths are appended inside the (re)allocated buffer and the recorded length is their sum; "
+                   "inflate_buffers: the inflate driver copies the message plus the 4-byte tail inside its allocation and keeps next_out inside the "
+                   "doubled output buffer for every behaviour of inflate.",
+    "outside": "the lossless round trip and rejection of corrupt streams INSIDE zlib's inflate/deflate (input-length dependent compression loops: not "
+               "encoded, contract stub instead); extension negotiation (fill_requested_extension) has no obligation yet; in the daemon the "
+               "extension is never enabled (compression level 0).",
+    "level_text": _BMC,
+}
+
+# ------------------------------------------------------------------------------------------------ C06/C09 parser input contract
+O(id="C09.msg_bytes_only", props=["C09", "C06"], harness="harness/c09_parse_bounds.c", entry="harness_parse_bounds", unwind=8,
+  functions=["parse_message"], symbolic="message length 1..6 and every message byte (no terminator guaranteed); message in an exact-size heap object",
+  stubs=["cJSON_ParseWithOpts / cJSON_ParseWithLengthOpts: contract stubs reading what the documented contract lets the library read",
+         "log_peer_err: empty; handlers: unreachable (the stub reports a parse error)"],
+  assumes=[], bounds="messages <= 6 bytes", also_for=["C06"])
